@@ -28,6 +28,7 @@ def rule_R1(ctx, f):
         if b:
             ctx.saw(b)
             n += hc.rule_separators(ctx, f, b, rid, m)
+            hc.rule_hasher_init(ctx, f, b, rid, m)
     ctx.floor(rid, "Hasher::write sites in vec.rs", n, 2)
 
 
@@ -226,6 +227,9 @@ def rule_R5(ctx, f):
     ctx.ob(rid, "value-same-index", ok_v, "the pair's value must be label_values[i] for the same enumeration index i (found %s)" % show(sv[0].args[1]), site=sv[0].span)
     ctx.ob(rid, "same-pair", peel(sn[0].args[0]) == peel(sv[0].args[0]) and peel(ps[0].args[1]) == peel(sn[0].args[0]),
            "name and value must be set on the pair that is pushed", site=ps[0].span)
+    ctx.ob(rid, "every-variable-pair", hc.every_element(b, ps[0], via=sn[0]) is True and hc.every_element(b, sv[0], via=sn[0]) is True,
+           "a pair must be pushed for every declared variable label: no path through the loop body may skip set_value or the push (an empty value is still exposed)", site=ps[0].span)
+    ctx.ob(rid, "every-const-pair", hc.every_element(b, ps[1]) is True, "every constant pair must be pushed: no path through the loop body may skip the push", site=ps[1].span)
     ec = elem_of(peel(ps[1].args[1]))
     ctx.ob(rid, "const-pairs-appended", bool(ec) and ec[0] == ("field", ("deref", P1), "const_label_pairs") and not [a for a in ec[1] if a not in ("into_iter", "iter")],
            "every constant label pair must be appended (found %s)" % show(ps[1].args[1]), site=ps[1].span)
